@@ -60,9 +60,9 @@ func witnessForcedStartTLSInformational(c *core.Case) {
 
 func witnesses() map[string]func(*core.Case) {
 	return map[string]func(*core.Case){
-		"neg:1:initiator:state-changed":     witnessStateChangedInitiator,
-		"neg:1:receiver:state-changed":      witnessStateChangedReceiver,
-		"neg:1:initiator:forced-starttls":   witnessForcedStartTLSPrerequisites,
-		"panic:negotiateFeatures:nil-deref": witnessForcedStartTLSInformational,
+		"neg:1:initiator:state-changed":                                             witnessStateChangedInitiator,
+		"neg:1:receiver:state-changed":                                              witnessStateChangedReceiver,
+		"neg:1:initiator:forced-starttls":                                           witnessForcedStartTLSPrerequisites,
+		"panic:negotiateFeatures:nil-deref:initiator:forced-starttls-informational": witnessForcedStartTLSInformational,
 	}
 }
